@@ -521,4 +521,5 @@ func scoracle() {
 func init() {
 	stages["c08readers"] = c08readers
 	stages["c08writer"] = c08writer
+	stages["c08writer2"] = c08writer2
 }
